@@ -1039,6 +1039,18 @@ def m_eprint(it, n, a):
 def key_cmp(it, a, b):
     """-1 / 0 / 1 with forking"""
     a, b = deref(a), deref(b)
+    if isinstance(a, Agg) and isinstance(b, Agg) and a.path == 'Option' and b.path == 'Option':
+        sa, va = opt_fork(it, a)
+        sb, vb = opt_fork(it, b)
+        if not sa or not sb:
+            return (1 if sa else 0) - (1 if sb else 0)
+        return key_cmp(it, va, vb)
+    if isinstance(a, Agg) and isinstance(b, Agg) and a.path == '()' and b.path == '()':
+        for x, y in zip(a.fields, b.fields):
+            c = key_cmp(it, x, y)
+            if c:
+                return c
+        return 0
     if isinstance(a, str) and isinstance(b, str):
         ab, bb = a.encode(), b.encode()
         return -1 if ab < bb else (0 if ab == bb else 1)
@@ -2554,7 +2566,7 @@ def ordering(c):
     return Agg('Ordering', [], variant={-1: 'Less', 0: 'Equal', 1: 'Greater'}[c], disc=c)
 
 
-@model(r'^<(String|str|&str|u8|u16|u32|u64|usize|i32) as (Ord|PartialOrd)>::(cmp|partial_cmp)$')
+@model(r'^<(String|str|&str|u8|u16|u32|u64|usize|i32|Option<.*>|\(.*\)) as (Ord|PartialOrd)>::(cmp|partial_cmp)$')
 def m_cmp(it, n, a):
     c = key_cmp(it, a[0], a[1])
     return some(ordering(c)) if n.endswith('partial_cmp') else ordering(c)
@@ -2864,3 +2876,124 @@ def m_child_read(it, n, a):
     if f is None:
         raise Unsupported('no environment model for ' + n)
     return f(it, a[0], a[1] if len(a) > 1 else None)
+
+
+# ---- `vec![a, b]` lowers to Box::new_uninit + a write through raw projections + box_assume_init_into_vec_unsafe
+@model(r'Box::<\[.*\]>::new_uninit$')
+def m_box_new_uninit(it, n, a):
+    cell = Cell(Agg('MaybeUninit', [None, Agg('ManuallyDrop', [Agg('MaybeDangling', [None])])]))
+    return Agg('BoxRaw', [Agg('Unique', [Ref(cell)])])
+
+
+@model(r'box_assume_init_into_vec_unsafe')
+def m_box_into_vec(it, n, a):
+    b = a[0]
+    payload = b.fields[0].fields[0].get().fields[1].fields[0].fields[0]
+    if payload is None:
+        raise Unsupported('vec! payload was never written')
+    return VecV(list(payload))
+
+
+@model(r'slice::<impl \[.*\]>::into_vec')
+def m_into_vec(it, n, a):
+    v = deref(a[0])
+    return VecV(list(v.items if isinstance(v, VecV) else v))
+
+
+@model(r'bool>::then_some::<')
+def m_then_some(it, n, a):
+    return some(a[1]) if it.truth(a[0]) else none()
+
+
+@model(r'bool>::then::<')
+def m_then(it, n, a):
+    return some(it.call_closure(a[1], [])) if it.truth(a[0]) else none()
+
+
+class MapWhileIter(IterBase):
+    def __init__(self, src, f):
+        self.src, self.f, self.done = src, f, False
+
+    def nxt(self, it):
+        if self.done:
+            return STOP
+        x = self.src.nxt(it)
+        if x is STOP:
+            return STOP
+        r = it.call_closure(self.f, [x])
+        s_, v = opt_fork(it, r)
+        if not s_:
+            self.done = True
+            return STOP
+        return v
+
+
+class TakeWhileIter(IterBase):
+    def __init__(self, src, f, skip):
+        self.src, self.f, self.skip, self.state = src, f, skip, 0
+
+    def nxt(self, it):
+        while True:
+            x = self.src.nxt(it)
+            if x is STOP:
+                return STOP
+            if self.skip:
+                if self.state == 1 or not it.truth(it.call_closure(self.f, [mkref(x)])):
+                    self.state = 1
+                    return x
+                continue
+            if self.state == 1:
+                return STOP
+            if it.truth(it.call_closure(self.f, [mkref(x)])):
+                return x
+            self.state = 1
+            return STOP
+
+
+@model(r'as Iterator>::map_while::<')
+def m_iter_map_while(it, n, a):
+    return MapWhileIter(a[0], a[1])
+
+
+@model(r'as Iterator>::(take_while|skip_while)::<')
+def m_iter_take_while(it, n, a):
+    return TakeWhileIter(a[0], a[1], 'skip_while' in n)
+
+
+@model(r'as Iterator>::try_for_each::<')
+def m_iter_try_for_each(it, n, a):
+    src = deref(a[0])
+    while True:
+        x = src.nxt(it)
+        if x is STOP:
+            return ok(unit()) if 'Result' in n or True else unit()
+        r = it.call_closure(a[1], [x])
+        # R: Try - Result<(), E> / Option<()> / ControlFlow
+        if r.path in ('Result',):
+            isok, v = res_fork(it, r)
+            if not isok:
+                return err(v)
+        elif r.path == 'Option':
+            s_, v = opt_fork(it, r)
+            if not s_:
+                return none()
+        elif r.path == 'ControlFlow':
+            if r.disc == 1:
+                return r
+        else:
+            raise Unsupported('try_for_each with ' + r.path)
+
+
+@model(r'as Iterator>::try_fold::<')
+def m_iter_try_fold(it, n, a):
+    src = deref(a[0])
+    acc = a[1]
+    while True:
+        x = src.nxt(it)
+        if x is STOP:
+            return ok(acc)
+        r = it.call_closure(a[2], [acc, x])
+        isok, v = res_fork(it, r)
+        if not isok:
+            return err(v)
+        acc = v
